@@ -137,7 +137,19 @@ impl RateLoader {
     ) -> Result<Option<DailyRate>, SError> {
         let year = trade_date.year() as u32;
 
-        if !self.year_rates.contains_key(&year) {
+        let needs_load = match self.year_rates.get(&year) {
+            None => true,
+            // The year was accepted from the cache because it covered the date
+            // that was asked for first. That says nothing about this date: if
+            // it is missing, the cache has to be validated again for it (which
+            // downloads the year, at most once per run), or a stale year would
+            // answer for dates newer than the cache.
+            Some(rates) => {
+                !rates.contains_key(&trade_date)
+                    && !self.fresh_loaded_years.contains(&year)
+            }
+        };
+        if needs_load {
             debug!("RateLoader::get_exact_usd_cad_rate {} not yet loaded", year);
             let rates = self.fetch_usd_cad_rates_for_date_year(&trade_date).await?;
             self.year_rates.insert(year, rates);
